@@ -68,6 +68,7 @@ def run(ck):
     for k, e in err.items():
         ck.fail_broken("%s: internal error: %s" % (k[1], e.strip().splitlines()[-1]))
     n = ok = nreach = nstart = 0
+    reach_fns = {}
     fns = set()
     for k in sorted(res):
         for x in res[k]["res"]:
@@ -92,11 +93,20 @@ def run(ck):
             sig = "%s|%s|%s|%s" % (k[1], "W", x["what"], x["role"])
             if any(rx.search(sig) for rx, _ in reach):
                 nreach += 1
+                reach_fns[k[1]] = reach_fns.get(k[1], 0) + 1
                 continue
             ck.report("C08:slack-clear-short:%s:%s:%s#%d" % (base, x["what"].replace(" ", "-"), x["role"], x["ordinal"]), "S-clear-ends-at-dmax",
                       "%s:%s" % (res[k]["file"], x["line"]),
                       "%s: the zeroing %s starting at offset %s with length %s is not known to end exactly at the declared end of %s (%s): elements behind it keep their old contents"
                       % (base, x["what"], x["off"], x["size"], x["role"], x["cap"]), dict(obligation=x))
+    pinned = json.load(open(os.path.join(VERIF, "tables", "cap_reach.json"))).get("c08_fills", {})
+    for fname, cnt in sorted(reach_fns.items()):
+        if fname not in pinned:
+            ck.fail_broken("tables/cap_reach.json records no slack-clearing count for %s" % fname)
+        elif cnt > pinned[fname]:
+            ck.report("C08:outside-reach-grew:%s" % api.base_name(fname), "S-clear-ends-at-dmax", "%s:%s" % (res[next(k for k in res if k[1] == fname)]["file"], "?"),
+                      "%s: %d slack-clearing writes of this function cannot be decided where %d were recorded for the pinned tree (function listed in tables/cap_reach.json)"
+                      % (api.base_name(fname), cnt, pinned[fname]))
     if n < MIN_FILLS:
         ck.fail_broken("only %d slack-clearing writes found (< %d)" % (n, MIN_FILLS))
     if nstart < 80:
